@@ -34,11 +34,13 @@ K_NAME = ('K_fortran: (a) FSolve.w_evaluate/w_solve_t/w_solve over FSem.f_eval v
           'FortranEngine methods; (b) Solver.solve_t_M / FSolve.py_solve over FSem.py_eval vs the class from fsic.build_model; '
           '(c) extracted FText.rewrite/block/int_array_def/number_of/lag_of vs the text of build_fortran_definition')
 RULE = ('C01-grammar programs of the common subset rendered from random syntax trees (+ - * / **, unary minus, parentheses, exp/log/max/min/abs, '
-        'parameters, errors, lags/leads, integer and decimal literals, long sums that need continuation lines, up to 40 variables), 7 program '
-        'families x random finite data (plus signed zeros, huge/tiny values, a few pre-existing NaN/inf) x the C02 option lattice (min_iter, max_iter, '
-        'tol, offset in/out of span, failures, errors incl. invalid, catch_first_error) x entry points evaluate/solve_t/solve x t in both spellings, '
-        'feasible and not. A run case is non-trivial when at least two evaluation passes ran, or an exception surfaced, or it is an evaluate call on '
-        'a program with at least one arithmetic node; a text case when at least one term was rewritten. Distinct by hash of the whole case.')
+        'parameters, errors, lags/leads, integer and decimal literals, long sums that need continuation lines, up to 40 variables, blank-free runs at '
+        'the wrap width 100/101+), 9 program families (lin tree trans lit powi bad long blow wrap) x random finite data (plus signed zeros, huge/tiny '
+        'values, pre-existing NaN/inf; the blow family overflows / divides by zero DURING the iteration so that template codes 21/22 and the '
+        'ignore/replace paths are exercised) x the C02 option lattice (min_iter, max_iter incl. 0 and min>max, tol incl. 0, offset in/out of span, '
+        'failures, errors incl. invalid, catch_first_error) x entry points evaluate/solve_t/solve x t in both spellings, feasible and not. A run case '
+        'is non-trivial when at least two evaluation passes ran, or an exception surfaced, or it is an evaluate call on a program with at least one '
+        'arithmetic node; a text case when at least one term was rewritten. Distinct by hash of the whole case.')
 TRUSTED = ['harness/fortran_ctypes.py (gfortran -O2 -shared -fPIC + ctypes stand-in for the f2py module; passes arguments verbatim)',
            'gfortran 12 (parsing, constant folding, code generation) and glibc libm: observed through K only — the claim is PARTIAL',
            'numpy scalar arithmetic and CPython evaluation of the generated _evaluate (observed through K only)',
@@ -47,10 +49,15 @@ TRUSTED = ['harness/fortran_ctypes.py (gfortran -O2 -shared -fPIC + ctypes stand
 ASSUMPTIONS = ['all model variables are float64 series; integers passed to the engine fit a C int',
                'integer literals below 2**31, decimal literals without exponent part (the fsic parser rejects 1e-3), no literal-only '
                'subexpression that overflows or divides by zero',
-               'textwrap.wrap is an oracle of the text model (its output lines are an input of FText.block); checked per case: the lines, '
-               'joined, are the rewritten code up to blanks',
-               'the instance-level lags/leads/endogenous equal the class-level ones generated from the symbols']
+               'textwrap.wrap is an oracle of the text model (its output lines are an input of FText.block); checked per case: the lines, joined '
+               'by single blanks, are the rewritten code up to runs of blanks (i.e. wrap broke at blanks only) — except in the kept finding class '
+               '(a blank-free run longer than the width), where only equality up to blanks is asked',
+               'the instance-level lags/leads/endogenous equal the class-level ones generated from the symbols',
+               'theorems: IEEE sign symmetry (-x)*y = -(x*y), (-x)/y = -(x/y) is a hypothesis (Fortran reads -a*b as -(a*b)); exp/log/** are '
+               'oracles shared by both evaluators; the tie between the generated Fortran TEXT and the syntax tree FSem.f_eval interprets '
+               '(gfortran parsing, kinds, constant folding, code generation) is observed through K only']
 EXHAUSTIVE = {'quick': False, 'thorough': False}
+SOURCES = ['fortran.py', 'parser.py', 'core/models.py', 'core/containers.py', 'core/interfaces.py', 'exceptions.py', 'functions.py']
 CASE_TIMEOUT = 60
 
 IN_WORKER = os.path.basename(sys.argv[0] if sys.argv else '') == 'worker.py'
@@ -275,6 +282,22 @@ def gen_program(rng, family):
             for tm in terms[1:]:
                 rhs = ['b', rng.choice('+-'), rhs, tm]
             eqs.append([y, rhs])
+    elif family == 'blow':
+        # numerical errors DURING the iteration (template codes 21 / 22, the ignore and replace paths): overflow after a few passes,
+        # division by zero, 0/0 — no exp/log/**/max/min, so both models are compared bit for bit on every run
+        y = endo[0]
+        x, z = exo[0], exo[-1]
+        shapes = [
+            ['b', '*', ['b', '*', ['v', y, 0], ['v', y, 0]], ['v', x, 0]],                                   # squares: inf after some passes
+            ['b', '/', ['v', x, 0], ['b', '-', ['v', y, 0], ['v', y, 0]]],                                   # x / 0
+            ['b', '/', ['b', '-', ['v', y, 0], ['v', y, 0]], ['b', '-', ['v', x, 0], ['v', x, 0]]],          # 0 / 0
+            ['b', '*', ['b', '*', ['v', x, 0], ['v', y, -1] if maxlag else ['v', y, 0]], ['v', z, 0]],       # overflow with huge data
+            ['b', '+', ['b', '/', ['v', x, 0], ['v', z, 0]], ['b', '*', ['v', y, 0], ['v', y, 0]]],
+            ['b', '-', ['b', '*', ['v', y, 0], ['b', '*', ['v', y, 0], ['v', y, 0]]], ['v', x, 0]],
+        ]
+        eqs.append([y, copy.deepcopy(rng.choice(shapes))])
+        for other in endo[1:]:
+            eqs.append([other, ['b', rng.choice('+-*'), ['v', y, 0] if rng.random() < 0.6 else ['v', x, 0], ['v', rng.choice(exo), 0]]])
     elif family == 'long':
         nv = rng.randint(12, 40)
         endo = ['E%d' % i for i in range(nv)] + ['TOTAL']
@@ -389,7 +412,7 @@ def gen_data(rng, prog, n, wild):
 
 def gen_opts(rng):
     mx = rng.choice([0, 1, 1, 2, 2, 3, 3, 5, 10, 30, 100]) if rng.random() < 0.95 else -1
-    mn = rng.randint(0, min(mx, 4) + 1) if mx >= 0 and rng.random() < 0.6 else 0
+    mn = rng.randint(0, min(mx, 4) + (1 if rng.random() < 0.25 else 0)) if mx >= 0 and rng.random() < 0.6 else 0
     if mx < 0:
         mn = rng.choice([-2, -1, 0])
     return dict(min_iter=mn, max_iter=mx, tol=lib.fhex(rng.choice([TOL, TOL, TOL, 1e-6, 0.5, 0.0, 1e-14])), offset=0,
@@ -405,7 +428,7 @@ def gen_runs(rng, prog, k):
     script = script_of(prog)
     for j in range(k):
         n = lg + ld + rng.randint(1, 5)
-        wild = rng.random() < 0.2
+        wild = rng.random() < (0.5 if prog.get('family') == 'blow' else 0.2)
         c = {'kind': 'run', 'prog': prog, 'script': script, 'n': n, 'data': gen_data(rng, prog, n, wild), 'opts': gen_opts(rng)}
         feas = list(range(lg, n - ld))
         r = rng.random()
@@ -440,7 +463,7 @@ def gen_runs(rng, prog, k):
     return out
 
 
-FAMILIES = ['lin', 'tree', 'tree', 'trans', 'lit', 'powi', 'bad', 'long']
+FAMILIES = ['lin', 'tree', 'blow', 'tree', 'trans', 'lit', 'powi', 'bad', 'long', 'blow']
 
 
 def corpus(rng):
